@@ -433,7 +433,11 @@ pub fn run_filtered(target: &str, data: &[u8], only: Option<&str>) -> (&'static 
                     0 | 1 | 2 | 3 => c15::Op::Push(c.u8()),
                     4 | 5 => c15::Op::PopFront,
                     6 | 7 => c15::Op::PopBack,
-                    8 => c15::Op::Advance(if c.u8() % 4 == 0 { c.u16() } else { c.u8() as u16 % 8 }),
+                    8 => c15::Op::Advance(match c.u8() % 8 {
+                        0 | 1 => c.u16(),
+                        2 => u16::MAX - (c.u8() % 4) as u16,
+                        _ => c.u8() as u16 % 8,
+                    }),
                     9 => match c.u8() % 4 {
                         0 => c15::Op::Clear,
                         _ => c15::Op::Slide,
